@@ -112,6 +112,13 @@ var c15Srcs = map[string]string{
 	"rename-tag":         "set_tag(tt, \"v\")\nrename(t2, tt)\nset_tag(f1)\ndrop_key(f2)\nset_measurement(\"mm\")\np(t2, f1, f2)\n",
 	"fail-nested-vars":   "a = \"leak-a\"\ns = \"leak-s\"\nw = \"leak-w\"\nn = 99\nadd_pattern(\"leakp\", \"x+\")\nif true {\n  for i = 0; i < 2; i = i + 1 {\n    q = 1 / (1 - i)\n  }\n}\np(\"unreachable\")\n",
 	"fail-in-use-branch": "x = \"caller-private\"\nok = \"stale-ok\"\nif true {\n  use(\"badrun.p\")\n}\n",
+	// the value of a call that returns nothing, used where a run-time error names the operand's type - before and after value-returning calls in the same run
+	"void-operand":       "x = drop_key(nosuchkey)\ny = x + 1\np(\"unreachable\")\n",
+	"void-iterable":      "for e in add_key(k9, 1) {\n  p(e)\n}\n",
+	"void-in":            "set_tag(k8, \"v\")\nz = 1 in rename(k7, k8)\np(z)\n",
+	"void-compound":      "x = 1\nx += cast(f1, \"int\")\np(x)\n",
+	"void-after-len":     "n = len(\"abc\")\nx = drop_key(nosuchkey)\ny = x - n\n",
+	"void-unary":         "x = -set_tag(k6, \"v\")\np(x)\n",
 	"reader":             "p(a, s, w, n, x, ok, q, i, b)\nadd_key(seen_a, a)\nadd_key(seen_x, x)\n",
 	"reader-use":         "use(\"reader2.p\")\np(a, x)\n",
 	"reader2":            "p(a, s, w, n, x, ok)\n",
@@ -251,7 +258,8 @@ func c15Pool(seed int64) []c15Op {
 		"void-after-val", "regs-full", "strfmt-print", "time", "xml-sql", "json", "rename-tag", "fail-nested-vars", "fail-in-use-branch", "reader", "reader-use",
 		"zone-canonical", "zone-offset", "zone-miscased", "zone-miscased", "zone-upper", "sql-backslash-literal", "sql-backslash-escape", "sql-backslash-both", "sql-backslash-both", "nested-literals", "nested-literals", "nested-literals-fail", "rename-onto-field", "rename-onto-tag", "rename-tag-onto-field", "rename-chain", "many-keys", "many-keys",
 		"grok-alias-digits", "grok-alias-letters", "grok-alias-top", "grok-alias-loop", "grok-alias-inner", "grok-alias-shadow", "grok-global-only",
-		"use-badre", "use-badre", "use-badre-twice", "arg-badre", "arg-badre", "arg-baddt", "badre"} {
+		"use-badre", "use-badre", "use-badre-twice", "arg-badre", "arg-badre", "arg-baddt", "badre",
+		"void-operand", "void-operand", "void-iterable", "void-in", "void-compound", "void-after-len", "void-unary"} {
 		name := name
 		ops = append(ops, c15Op{"run:" + name, func(st *c15State) string { return c15RunV1(st, name, &drive.RunState{Budget: 20000}) }})
 	}
